@@ -540,12 +540,44 @@ def opProbe (args : List String) : Option String := do
   | _ => none
 end ProbeOps
 
+/-! ### C05 ray geometry (Float) -/
+section RayGeomOps
+open Arim.Geo Arim.RayGeom Arim.Num
+
+def floatTrig : Trig Float := { sqrt := Float.sqrt, acos := Float.acos, atan2 := Float.atan2, pi := pi, two := 2.0 }
+
+def showLeg : Option (RayGeom.Leg Float) → String
+  | none => "N"
+  | some l => showFloats [l.size, l.cart.x, l.cart.y, l.cart.z, l.radius, l.polar, l.azimuth, l.signed] ++ "," ++
+      (match l.conventional with | none => "E" | some c => showFloat c)
+
+/-- `raygeom <points ;> <frames ;> <incflags> <outflags> <vels>` → `inc/out` per interface, `|` travel time, `|` same for the reversed ray -/
+def opRayGeom (args : List String) : Option String := do
+  match args with
+  | [pts, frs, inc, out, vels] =>
+    let pts ← floatMat? pts; let frs ← floatMat? frs
+    let incF ← inc.toList.mapM flag?; let outF ← out.toList.mapM flag?
+    let vels ← floatList? vels
+    let nodes ← (List.range pts.length).mapM (fun k => do
+      let p ← pts[k]?; let f ← frs[k]?
+      match p, f with
+      | [x, y, z], [a, b, c, d, e, f', g, h, i] =>
+        pure ({ p := ⟨x, y, z⟩, frame := ⟨⟨a, b, c⟩, ⟨d, e, f'⟩, ⟨g, h, i⟩⟩, incSide := (incF[k]?).join, outSide := (outF[k]?).join } : Node Float)
+      | _, _ => none)
+    let sh := fun (ray : List (Node Float)) =>
+      join ((List.range ray.length).map (fun k => showLeg (incLeg floatTrig ray k) ++ "/" ++ showLeg (outLeg floatTrig ray k))) ";"
+    let tt := match travelTime floatTrig nodes vels with | some t => showFloat t | none => "N"
+    pure (sh nodes ++ "|" ++ tt ++ "|" ++ sh (reverseRay nodes))
+  | _ => none
+end RayGeomOps
+
 def route (op : String) (args : List String) : String :=
   let r : Option String :=
     match op with
     | "fermat" => opFermat args
     | "minplus" => opMinPlus args
     | "chunks" => opChunks args
+    | "raygeom" => opRayGeom args
     | "probe" => opProbe args
     | "geo" => opGeo args
     | "ctfm" => opCtfm args
